@@ -281,6 +281,105 @@ fn ladder_cases() -> Vec<(String, usize, bool)> {
     v
 }
 
+
+// ------------------------------------------------------------------ hand-built families
+//
+// Texts built from a small grammar of "definitions that refer to each other in a circle" and of
+// "numbers at the edge of an integer width", the two shapes a truncated or mutated corpus file
+// practically never contains.
+
+fn family_names() -> &'static [&'static str] {
+    &["cyclic-definitions", "numeric-boundaries"]
+}
+
+fn family_texts(name: &str) -> Vec<String> {
+    let mut v = vec![];
+    match name {
+        "cyclic-definitions" => {
+            for len in 1..=3usize {
+                for defined in [false, true] {
+                    // modules m0..m{len-1}: each re-exports `x` from the next one (a cycle); with
+                    // `defined`, an extra module really defines x and the last hop goes there instead
+                    let mut mods = String::new();
+                    for i in 0..len {
+                        let next = if defined && i + 1 == len { "real".to_string() } else { format!("m{}", (i + 1) % len) };
+                        mods.push_str(&format!("mod m{i} {{\n  pub use {next}::x\n}}\n"));
+                    }
+                    if defined {
+                        mods.push_str("mod real {\n  pub fn x(){ 1.0 }\n}\n");
+                    }
+                    let outside = "mod z {\n  pub use m0::x\n}\n";
+                    for (entry, body) in [
+                        ("use m0::x\n", "x()"),
+                        ("", "m0::x()"),
+                        ("use m0::*\n", "x()"),
+                        ("use m0::{x}\n", "x()"),
+                        ("use z::x\n", "x()"),
+                        ("", "z::x()"),
+                        ("use z::*\n", "x()"),
+                        ("use m0::x\nuse z::x\n", "x()"),
+                    ] {
+                        let z = if entry.contains("z::") || body.contains("z::") { outside } else { "" };
+                        v.push(format!("{mods}{z}{entry}fn dsp(){{\n  {body}\n}}\n"));
+                        // the same reference from inside another module
+                        v.push(format!("{mods}{z}mod user {{\n  {}pub fn go(){{ {body} }}\n}}\nfn dsp(){{\n  user::go()\n}}\n", entry.replace('\n', "\n  ")));
+                    }
+                }
+            }
+            // aliases, types and values that go round in circles
+            for t in [
+                "type A = B\ntype B = A\nfn dsp(x:A){ x }\n",
+                "type A = (A, float)\nfn dsp(x:A){ 1.0 }\n",
+                "type alias T = T\nfn dsp(x:T){ 1.0 }\n",
+                "mod a { pub type T = b::T }\nmod b { pub type T = a::T }\nfn dsp(x:a::T){ 1.0 }\n",
+                "let a = b\nlet b = a\nfn dsp(){ a }\n",
+                "fn f(){ g() }\nfn g(){ f() }\nlet v = 1.0\nfn dsp(){ v }\n",
+                "use a::a\nmod a { pub use a::a }\nfn dsp(){ a() }\n",
+                "mod a { pub use self::x }\nfn dsp(){ a::x() }\n",
+                "mod a { pub use super::a::x }\nfn dsp(){ a::x() }\n",
+                "mod a { pub mod b { pub use a::c::y } pub mod c { pub use a::b::y } }\nuse a::b::y\nfn dsp(){ y() }\n",
+            ] {
+                v.push(t.to_string());
+            }
+        }
+        "numeric-boundaries" => {
+            let big40 = format!("1{}", "0".repeat(40));
+            let big400 = format!("1{}", "0".repeat(400));
+            let tiny = format!("0.{}1", "0".repeat(400));
+            let nums: Vec<String> = [
+                "255", "256", "65535", "65536", "16777215", "16777216", "2147483647", "2147483648", "4294967295", "4294967296",
+                "9007199254740993", "9223372036854775807", "9223372036854775808", "18446744073709551615", "18446744073709551616",
+            ]
+            .iter()
+            .map(|s| s.to_string())
+            .chain([big40, big400, tiny])
+            .collect();
+            for n in &nums {
+                for t in [
+                    "fn dsp(){\n  let t = (1.0, 2.0)\n  t.N\n}\n",
+                    "fn dsp(){\n  let t = ((1.0, 2.0), 3.0)\n  t.0.N\n}\n",
+                    "fn dsp(){\n  let t = ((1.0, 2.0), 3.0)\n  t.N.0\n}\n",
+                    "let a = [1.0, 2.0]\nfn dsp(){\n  a[N]\n}\n",
+                    "fn dsp(){\n  N\n}\n",
+                    "fn dsp(){\n  N.0\n}\n",
+                    "fn dsp(){\n  delay(N, 1.0, 1.0)\n}\n",
+                    "fn dsp(){\n  delay(4.0, 1.0, N)\n}\n",
+                    "fn f(){ 1.0 }\nlet _ = f@N\nfn dsp(){\n  1.0\n}\n",
+                    "fn dsp(){\n  let (a, b) = (1.0, 2.0)\n  a.N\n}\n",
+                    "fn dsp(x:(float,float)){\n  x.N\n}\n",
+                    "fn dsp(){\n  (1.0, 2.0).N\n}\n",
+                    "fn dsp(){\n  -N % N\n}\n",
+                    "#stage(macro)\nfn m(){ `(N) }\n#stage(main)\nfn dsp(){\n  m!()\n}\n",
+                ] {
+                    v.push(t.replace('N', n));
+                }
+            }
+        }
+        _ => {}
+    }
+    v
+}
+
 // ------------------------------------------------------------------ corpus
 
 /// Measured cost (ms, one full pass of all monitored entry points over the complete file,
@@ -1563,6 +1662,8 @@ enum Slot {
     Seq { alpha: &'static str, len: usize, joiner: &'static str, first: u64, count: u64 },
     Ladder { kind: String, depth: usize, wrapped: bool },
     Margin { kind: String, wrapped: bool },
+    /// hand-built family (see family_texts): name, first text, count
+    Family { name: &'static str, first: usize, count: usize },
     /// file index, first char-boundary ordinal, count, stride, is_suffix
     Cut { file: usize, first: usize, count: usize, stride: usize, suffix: bool },
 }
@@ -1584,6 +1685,15 @@ fn slots(p: &Plan, corpus: &[CorpusFile], args: &Args) -> Vec<Slot> {
     }
     for (k, w) in &p.margins {
         v.push(Slot::Margin { kind: k.clone(), wrapped: *w });
+    }
+    for name in family_names() {
+        let n = family_texts(name).len();
+        let mut first = 0;
+        while first < n {
+            let count = 24.min(n - first);
+            v.push(Slot::Family { name, first, count });
+            first += count;
+        }
     }
     for (fi, f) in corpus.iter().enumerate() {
         let nb = f.text.chars().count() + 1;
@@ -1625,6 +1735,11 @@ fn slot_case(s: &Slot, corpus: &[CorpusFile], repo: &str) -> Case {
             }
         }
         Slot::Margin { kind, wrapped } => Case::Margin { kind: kind.clone(), wrapped: *wrapped },
+        Slot::Family { name, first, count } => Case::Texts {
+            origin: format!("family/{name}#{first}"),
+            path: default_path(repo),
+            texts: family_texts(name).into_iter().skip(*first).take(*count).collect(),
+        },
         Slot::Cut { file, first, count, stride, suffix } => {
             let f = &corpus[*file];
             let bounds: Vec<usize> = f.text.char_indices().map(|(i, _)| i).chain(std::iter::once(f.text.len())).collect();
